@@ -31,6 +31,14 @@ func Inv(d time.Duration) time.Duration {
 }
 
 func Midpoint(x, y time.Duration) time.Duration {
+	if (x < 0) != (y < 0) {
+		// y-x may not be representable: halve the distance in uint64
+		// (same result as below wherever that one is defined)
+		if x < 0 {
+			return x + time.Duration((uint64(y)+uint64(-x))/2)
+		}
+		return x - time.Duration((uint64(x)+uint64(-y))/2)
+	}
 	return x + (y-x)/2.0
 }
 
